@@ -105,9 +105,10 @@ func c12CountNodes(ns []c12Node) (n int, special bool) {
 }
 
 type procInfo struct {
-	Pid   int
-	PPid  int
-	State string
+	Pid    int
+	PPid   int
+	State  string
+	Tracer int // TracerPid: a dead tracee that its tracer never collected stays attached to it
 }
 
 func taggedInfo(tag string) []procInfo {
@@ -119,6 +120,13 @@ func taggedInfo(tag string) []procInfo {
 				f := strings.Fields(string(b)[i+2:])
 				if len(f) > 1 {
 					pi.PPid, _ = strconv.Atoi(f[1])
+				}
+			}
+		}
+		if b, err := os.ReadFile(fmt.Sprintf("/proc/%d/status", pid)); err == nil {
+			for _, ln := range strings.Split(string(b), "\n") {
+				if strings.HasPrefix(ln, "TracerPid:") {
+					pi.Tracer, _ = strconv.Atoi(strings.TrimSpace(ln[10:]))
 				}
 			}
 		}
@@ -137,12 +145,15 @@ func c12NoTagged(tag string, inits map[int]bool, what string) error {
 		var live, zomb []procInfo
 		for _, p := range infos {
 			if p.State == "Z" || p.State == "X" {
-				if p.PPid == os.Getpid() || inits[p.PPid] {
+				if p.PPid == os.Getpid() || inits[p.PPid] || (p.Tracer != 0 && ownTask(p.Tracer)) {
 					zomb = append(zomb, p)
 				}
 				continue
 			}
 			live = append(live, p)
+		}
+		if len(live) == 0 && len(zomb) == 0 {
+			zomb = leftoverTracees(inits)
 		}
 		if len(live) == 0 && len(zomb) == 0 {
 			return nil
@@ -152,10 +163,53 @@ func c12NoTagged(tag string, inits map[int]bool, what string) error {
 			if len(live) > 0 {
 				return vh.Violf("C12:survivor", "%s: processes of the program are still alive 2 s after the run returned: %+v", what, live)
 			}
-			return vh.Violf("C12:zombie", "%s: un-reaped zombies whose parent is the host process or a container init: %+v", what, zomb)
+			return vh.Violf("C12:zombie", "%s: un-reaped zombies whose parent is the host process or a container init, or dead tracees the host's tracer never collected: %+v", what, zomb)
 		}
 		time.Sleep(5 * time.Millisecond)
 	}
+}
+
+// leftoverTracees scans the process table for processes (zombies have no cmdline, so the tag scan cannot see them)
+// that are still attached to one of this process's threads as tracer, or are zombie children of this process.
+func leftoverTracees(allowChildren map[int]bool) []procInfo {
+	var out []procInfo
+	ents, _ := os.ReadDir("/proc")
+	for _, e := range ents {
+		pid, err := strconv.Atoi(e.Name())
+		if err != nil || pid == os.Getpid() {
+			continue
+		}
+		b, err := os.ReadFile("/proc/" + e.Name() + "/status")
+		if err != nil {
+			continue
+		}
+		pi := procInfo{Pid: pid}
+		for _, ln := range strings.Split(string(b), "\n") {
+			switch {
+			case strings.HasPrefix(ln, "State:"):
+				f := strings.Fields(ln)
+				if len(f) > 1 {
+					pi.State = f[1]
+				}
+			case strings.HasPrefix(ln, "PPid:"):
+				pi.PPid, _ = strconv.Atoi(strings.TrimSpace(ln[5:]))
+			case strings.HasPrefix(ln, "TracerPid:"):
+				pi.Tracer, _ = strconv.Atoi(strings.TrimSpace(ln[10:]))
+			}
+		}
+		if pi.Tracer != 0 && ownTask(pi.Tracer) {
+			out = append(out, pi)
+		} else if pi.PPid == os.Getpid() && pi.State == "Z" && !allowChildren[pid] {
+			out = append(out, pi)
+		}
+	}
+	return out
+}
+
+// ownTask says whether tid is a thread of this process (a tracer thread of the host).
+func ownTask(tid int) bool {
+	_, err := os.Stat(fmt.Sprintf("/proc/self/task/%d", tid))
+	return err == nil
 }
 
 func c12Filter() ([]string, []string) {
